@@ -981,9 +981,21 @@ MODEL_FILES = ["Lib/Base.v", "Lib/GenTypes.v", "Gen/IgnoreGen.v", "Model/PyStr.v
                "Actual/IgnorePatActual.v"]
 
 
-def eval_shards_at(th, workdir: Path, header: str, shards):
+def eval_shards_at(th, workdir: Path, header: str, shards, attempt=0):
+    """evaluate the shards; an evaluator process killed by a signal (rc < 0: the machine ran out of memory, not a verdict) is retried"""
+    try:
+        return _eval_shards_at(th, workdir / f"try{attempt}" if attempt else workdir, header, shards)
+    except RuntimeError as e:
+        if attempt < 2 and re.search(r"rc=-\d+", str(e)):
+            import time
+            time.sleep(5 + 10 * attempt)
+            return eval_shards_at(th, workdir, header, shards, attempt + 1)
+        raise
+
+
+def _eval_shards_at(th, workdir: Path, header: str, shards):
     if th is None:
-        return coq.eval_shards(workdir, header, shards)
+        return coq.eval_shards(workdir, header, shards, 1500)
     import subprocess
     from concurrent.futures import ThreadPoolExecutor
     workdir.mkdir(parents=True, exist_ok=True)
@@ -994,7 +1006,7 @@ def eval_shards_at(th, workdir: Path, header: str, shards):
         jobs.append(f)
 
     def one(f):
-        return subprocess.run(["timeout", "600", "coqc", "-Q", str(th), "TL", "-w", "-notation-overridden,-abstract-large-number", str(f)],
+        return subprocess.run(["timeout", "1500", "coqc", "-Q", str(th), "TL", "-w", "-notation-overridden,-abstract-large-number", str(f)],
                               capture_output=True, text=True, cwd=str(f.parent))
     with ThreadPoolExecutor(max_workers=8) as ex:
         outs = list(ex.map(one, jobs))
@@ -1032,7 +1044,9 @@ def build_snapshot(sd: Path):
 def judge(cases, workdir: Path, cands: str, nshards=16):
     """shards balanced by text size x queries; returns one parsed verdict per case"""
     weight = lambda c: (len(c["content"]) + 200) * (len(c["queries"]) + 6)
-    budget = max(1, sum(weight(c) for c in cases) // nshards)
+    total = sum(weight(c) for c in cases)
+    nshards = max(nshards, total // 600_000)   # bounded shard size: the thorough tier gets more shards, not bigger (memory-hungry) ones
+    budget = max(1, total // nshards)
     shards, index, cur, cur_idx, load = [], [], [], [], 0
     for j, c in enumerate(cases):
         w = weight(c)
@@ -1146,11 +1160,14 @@ def evaluate(chk, structured, raws, leafs, p2_cap, th=None, record=True, note=""
                 class_only = by_class[max(0, p2_cap - len(rest)):]
             else:
                 class_only = []
-            full_idx = list(range(len(structured))) if mismatch else need
+            search_only = th is not None   # the fallback round only looks for ONE concrete failing input: no attribution of fixed defects
+            if mismatch and search_only:
+                need = [j for j in need if any(not row[2] for row in first[j][1:])][:12]
+            full_idx = list(range(len(structured))) if mismatch and not search_only else need
             # without a mismatch only the failing queries need explaining; with one, everything is re-judged under every candidate
-            p2 = [structured[j] if mismatch else reduced(structured[j], first[j]) for j in full_idx]
+            p2 = [structured[j] if mismatch and not search_only else reduced(structured[j], first[j]) for j in full_idx]
             full = judge(p2, wd / "p2", "(candidates ignore_actual)") if full_idx else []
-            raw_full = judge(raws, wd / "raw2", "(candidates ignore_actual)") if mismatch and raws else []
+            raw_full = judge(raws, wd / "raw2", "(candidates ignore_actual)") if mismatch and raws and not search_only else []
             _tick(f"pass 2 judging ({len(full_idx)} cases)")
         except RuntimeError as e:
             chk.broken.append(f"Model:evaluation of the ignore model failed{note} ({str(e)[:400]})")
@@ -1179,7 +1196,7 @@ def evaluate(chk, structured, raws, leafs, p2_cap, th=None, record=True, note=""
             chk.sample({"level": case["kind"], "content": case["content"][:500], "queries": case["queries"][:6], "impl": case["impl"][:6]}, 4)
             chk.traces_validated += len(case["queries"])
         if j in fullmap:
-            decide(chk, fullmap[j][0], fullmap[j][1], agree, mismatch, note)
+            decide(chk, fullmap[j][0], fullmap[j][1], agree, mismatch and th is None, note)
         elif j in class_only_set:
             for k, row in enumerate(first[j][1:]):
                 if not row[0]:
@@ -1200,7 +1217,12 @@ def evaluate(chk, structured, raws, leafs, p2_cap, th=None, record=True, note=""
             for row in raw_full[j]:
                 for ci in range(N_CANDS):
                     agree[ci] = agree[ci] and bool(row[ci])
-    if mismatch:
+    if mismatch and th is not None:
+        for j in raw_bad[:1]:   # a concrete text on which the implementation no longer does what the last validated model says
+            k = next(k for k, row in enumerate(rawv[j]) if not row[0])
+            chk.violation({"reason": "should_ignore_violation no longer agrees with the validated model on this text (malformed-stream case)" + note,
+                           "content": raws[j]["content"], "line": raws[j]["queries"][k][0], "rule_id": raws[j]["queries"][k][1], "impl": raws[j]["impl"][k]})
+    elif mismatch:
         alt = [ci for ci in range(1, N_CANDS) if agree[ci] and ci != C_SHARED]
         names = ["claimed"] + [f"claimed without {f}" for f in FLAGS] + ["claimed flags, all linters on the shared parser", "ideal"]
         if alt and C_OFF0 <= alt[0] < C_SHARED:
